@@ -46,7 +46,11 @@ def bump(kind, fld, pred=lambda r: True):
         for i, r in enumerate(s):
             if r["e"] == kind and pred(r):
                 ref = r["m"] if fld == "ex" else r[fld if fld[-1] == "m" else fld[:-1] + "m"]
-                j = random.choice([j for j, v in enumerate(ref) if v != 0])
+                cand = [j for j, v in enumerate(ref) if v != 0]
+                if kind == "MakeFan" and fld == "dm":      # an input bin that some entry holds (gap bins are not converted)
+                    held = set(zip(r["m"], r["ex"]))
+                    cand = [j for j in cand if (r["dm"][j], r["de"][j]) in held]
+                j = random.choice(cand)
                 r[fld][j] += 1 if fld[-1] != "m" else 2
                 return i
         raise SystemExit("no %s line" % kind)
